@@ -611,7 +611,15 @@ class TypedGen:
             b = self.seq(rng.choice(["Jet", "Trk"]), scope, d)
         else:
             r = rng.random()
-            if r < 0.35:
+            c = None
+            if rng.random() < 0.12:
+                # an immediately called lambda whose body holds a collection operator: the operator's lambda sees the called
+                # lambda's parameter (typed by the argument) next to its own
+                want = rng.choice(["float", "int", "bool"])
+                c = self.called(scope, max(d, 2), lambda sc: self.select(self.seq(rng.choice(["Jet", "Trk"]), sc, 1), sc, 2, want))
+            if c is not None:
+                b = c
+            elif r < 0.35:
                 b = self.scalar(scope, d, rng.choice(["float", "int"]))
             elif r < 0.6:
                 s = self.seq(rng.choice(["Jet", "Trk"]), scope, d - 1)
@@ -624,9 +632,22 @@ class TypedGen:
                 a, c = self.scalar(scope, d - 1, "float"), self.scalar(scope, d - 1, "int")
                 b = TExpr(f"({a.src}, {c.src})", f"({a.norm}, {c.norm})", "Any", a.log + c.log, a.md + c.md, a.refusal or c.refusal)
             else:
-                a, c = self.scalar(scope, d - 1, "float"), self.scalar(scope, d - 1, "int")
-                # projections out of a literal: the type is the one recorded for that element when the literal was visited
-                shape = rng.choice(["attr", "attr", "key", "key2", "tup0", "tup1", "tupT"])
+                # field / element types vary from query to query (float, int, bool under the same keys)
+                def _field(ty):
+                    return self.boolean(scope, d - 1) if ty == "bool" else self.scalar(scope, d - 1, ty)
+                a, c = _field(rng.choice(["float", "float", "int", "bool"])), _field(rng.choice(["int", "int", "float", "bool"]))
+                # projections out of a literal: the type is the one recorded for that element when the literal was visited;
+                # a field of a value BUILT from a dictionary literal (the parameter of an immediately called lambda): the
+                # field's type in the dataclass made for that literal
+                shape = rng.choice(["attr", "attr", "key", "key2", "tup0", "tup1", "tupT", "dcattr", "dcattr2", "dckey"])
+                if shape in ("dcattr", "dcattr2", "dckey"):
+                    dv = rng.choice(["d", "rec", "x"])
+                    use, ty = {"dcattr": (f"{dv}.pt", a.ty), "dcattr2": (f"{dv}.n", c.ty), "dckey": (f"{dv}['n']", c.ty)}[shape]
+                    lit_s, lit_n = "{'pt': %s, 'n': %s}" % (a.src, c.src), "{'pt': %s, 'n': %s}" % (a.norm, c.norm)
+                    kw = rng.random() < 0.3
+                    b = TExpr(f"(lambda {dv}: {use})({dv + '=' if kw else ''}{lit_s})", f"(lambda {dv}: {use})({dv + '=' if kw else ''}{lit_n})", ty,
+                              a.log + c.log, a.md + c.md, a.refusal or c.refusal)
+                    return scope_param, b
                 if shape == "attr":
                     pre, post, ty = "{'pt': %s, 'n': %s}", ".pt", a.ty
                 elif shape == "key":
